@@ -61,6 +61,9 @@ class ExprGen:
                 opts += ["hr"]
         if all(t == "O" for t, _ in types) and n <= 2:
             opts += ["mem", "mem"]
+        if any(t == "X" for t, _ in types):
+            # an argument of functor / slot / trackable-value type: only targets that accept anything
+            opts = [o for o in opts if o not in ("slot", "retype", "mem", "c1", "c2")]
         k = r.choice(opts) if depth > 0 or r.random() < 0.9 else "leaf"
         if depth == 0 and k == "leaf" and self.max_depth > 0 and r.random() < 0.8:
             k = r.choice([o for o in opts if o != "leaf"] or ["leaf"])
@@ -79,12 +82,17 @@ class ExprGen:
                 if ch < 0.4:
                     bounds.append(("v", r.randint(10, 99)))
                     btypes.append(("O", False))
-                elif ch < 0.8:
+                elif ch < 0.7:
                     bounds.append(("r", r.randrange(K)))
                     btypes.append(("T", False))
-                else:
+                elif ch < 0.85:
                     bounds.append(("c", r.randrange(K)))
                     btypes.append(("T", True))
+                else:
+                    # a functor, a slot or a trackable-derived object bound BY VALUE (visited through bound_argument<T>)
+                    kind = r.choice("fst")
+                    bounds.append((kind, r.randrange(K) if kind != "t" else 0))
+                    btypes.append(("X", False))
             if k == "bind":
                 i = r.randint(0, n)
                 f, rv = self.gen(types[:i] + btypes + types[i:], depth + 1, need_value, allow_throw)
@@ -226,7 +234,9 @@ def to_cpp(t):
     if k == "bind":
         bs = []
         for kind, v in t[3]:
-            bs.append("Obj(%d)" % v if kind == "v" else ("std::ref(*g_tr[%d])" % v if kind == "r" else "std::cref(*g_tr[%d])" % v))
+            bs.append({"v": "Obj(%d)", "r": "std::ref(*g_tr[%d])", "c": "std::cref(*g_tr[%d])",
+                       "f": "sigc::mem_fun(*g_tr[%d], &Tr::m0)", "s": "sigc::slot<long()>(sigc::mem_fun(*g_tr[%d], &Tr::m0))",
+                       "t": "TrVal(%d)"}[kind] % v)
         if t[1] < 0:
             return "sigc::bind(%s, %s)" % (to_cpp(t[2]), ", ".join(bs))
         return "sigc::bind<%d>(%s, %s)" % (t[1], to_cpp(t[2]), ", ".join(bs))
